@@ -136,3 +136,9 @@ func vkWatch(d time.Duration, sig string, f func() *verifkit.Failure) *verifkit.
 		return fl
 	}
 }
+
+// vkOwnPipeline switches the background goroutines of every store created in
+// this test process off (hook H2). The switch is read by the goroutine that
+// NewStore starts, at an unknown later time, so it is set once per process and
+// never cleared; tests that need the real goroutines run in other processes.
+func vkOwnPipeline() { VerifNoMaintenance.Store(true) }
